@@ -57,6 +57,7 @@ type gen struct {
 	specStack     map[*ssa.Function]bool
 	absDivMod     bool
 	maxDepth      int
+	baseHeaps     []baseHeap
 	inQuant       int
 	excluded      []string
 	loopHavocAll  map[*ssa.BasicBlock]bool // loops whose body contains a havoc of the whole heap (from a first pass)
@@ -526,4 +527,40 @@ func (g *gen) divmodAbs(div, signed bool, w int, a, b string) string {
 		return d
 	}
 	return m
+}
+
+// Heap well-formedness ("every reference stored in a heap is older than the allocation counter that bounds it") is a
+// universally quantified property of every BASE heap (the entry heap and each unconstrained heap introduced by a havoc).
+// The quantified axioms made z3 diverge on small queries, so the instances are generated at the addresses the
+// program actually loads references from (term-directed instantiation); each instance is a consequence of the axiom.
+type baseHeap struct {
+	refs map[string]string // HPr/HSr/HIr terms
+	ac   string
+}
+
+func (g *gen) registerBaseHeap(h heap, ac string) {
+	if g.lite {
+		return
+	}
+	g.baseHeaps = append(g.baseHeaps, baseHeap{map[string]string{"HPr": h["HPr"], "HSr": h["HSr"], "HIr": h["HIr"]}, ac})
+}
+
+func (g *gen) wfInstances(kind, ref, off, guard string) {
+	if g.lite || guard == "#skip" || g.inQuant > 0 {
+		return
+	}
+	bs := g.baseHeaps
+	n := 0
+	for i := len(bs) - 1; i >= 0; i-- {
+		if n >= 10 && i != 0 {
+			continue // keep the entry heap and the ten most recent havoc heaps
+		}
+		n++
+		key := "wf:" + bs[i].refs[kind] + "|" + ref + "|" + off
+		if g.specDefs[key] {
+			continue
+		}
+		g.specDefs[key] = true
+		g.assume(fmt.Sprintf("(< %s %s)", sel(bs[i].refs[kind], ref, off), bs[i].ac))
+	}
 }
